@@ -301,7 +301,7 @@ def run(ctx):
     # independent verifier accepts for the output being spent; a wrong key must not give a transaction that the library calls valid
     from bitcoinlib.keys import Key as _Key
     for trial in range(30 if T else 10):
-        nin_ = rng.randint(1, 2)
+        nin_ = rng.randint(1, 3)
         ks_ = [_Key(rng.randrange(2 ** 200, 2 ** 250)) for _ in range(nin_)]
         kinds_ = [rng.choice(['p2pkh', 'p2wpkh', 'p2sh_p2wpkh']) for _ in range(nin_)]
         t = Transaction(network='bitcoin', witness_type='segwit')
@@ -312,10 +312,16 @@ def run(ctx):
             txid_ = txgen.rbytes(rng, 32)
             n_ = rng.randrange(4)
             val_ = rng.choice([5000, 123456, 10 ** 8])
-            t.add_input(txid_, n_, address=addr_, value=val_, witness_type=wt_)
             h_ = txgen._h160(k_.public_byte)
             spk_ = {'p2pkh': b'\x76\xa9\x14' + h_ + b'\x88\xac', 'p2wpkh': b'\x00\x14' + h_,
                     'p2sh_p2wpkh': b'\xa9\x14' + txgen._h160(b'\x00\x14' + h_) + b'\x87'}[kind_]
+            # the output being spent is named by its address or - equally key-less - by its scriptPubKey
+            form_ = rng.choice(['address', 'address', 'locking_script'])
+            ctx.count('key-less-input:' + form_)
+            if form_ == 'address':
+                t.add_input(txid_, n_, address=addr_, value=val_, witness_type=wt_)
+            else:
+                t.add_input(txid_, n_, locking_script=spk_, value=val_, witness_type=wt_)
             meta_.append({'spk': spk_, 'val': val_})
         t.add_output(1000, lock_script=b'\x00\x14' + txgen.rbytes(rng, 20))
         po = ';'.join('%s:%d' % (m_['spk'].hex(), m_['val']) for m_ in meta_)
@@ -327,7 +333,10 @@ def run(ctx):
                 for i_, k_ in enumerate(ks_):
                     t.sign([k_], index_n=i_)
             elif mode == 'right-list':
-                t.sign(list(ks_), fail_on_unknown_key=False)
+                # all keys in one call, in any order, possibly with a key that belongs to no input
+                kl_ = list(ks_) + ([_Key(rng.randrange(2 ** 200, 2 ** 250))] if rng.random() < 0.4 else [])
+                rng.shuffle(kl_)
+                t.sign(kl_, fail_on_unknown_key=False)
             elif mode == 'wrong':
                 t.sign([_Key(rng.randrange(2 ** 200, 2 ** 250))], index_n=0, fail_on_unknown_key=False)
             else:
